@@ -97,6 +97,10 @@ class SymFactory:
         """Three reals meant as a unit vector (the contract's `requires` states |u| = 1)."""
         return self.reals(names)
 
+    def ortho3(self, names):
+        """Nine reals meant as three mutually perpendicular vectors (stated by the contract's `requires`)."""
+        return self.reals(names)
+
 
 POOL = [0.0, 1.0, -1.0, 2.0, -2.0, 0.5, -0.5, 3.0, -3.0, 1.5, 0.25, 4.0, -1.5, 0.75, 5.0, -4.0, 2.5, 7.0, -0.25, 10.0]
 
@@ -142,6 +146,33 @@ class SampleFactory:
         v = bool(self.values[name]) if self.values is not None else self.rng.random() < 0.5
         self.symbols[name] = v
         return v
+
+    def ortho3(self, names):
+        """Three mutually perpendicular vectors, either handedness, exactly representable (signed permutation
+        matrices and 3-4-5 rotations scaled by small dyadic lengths)."""
+        if isinstance(names, str):
+            names = names.split()
+        if self.values is not None:
+            return [float(self.values[n]) for n in names]
+        rng = self.rng
+        perm = rng.sample(range(3), 3)
+        M = [[0.0] * 3 for _ in range(3)]
+        for i, j in enumerate(perm):
+            M[i][j] = rng.choice([1.0, -1.0])
+        if rng.random() < 0.5:
+            c, s_ = rng.choice([(0.6, 0.8), (0.8, 0.6), (-0.6, 0.8), (0.28, 0.96)])
+            k = rng.randrange(3)
+            i, j = (k + 1) % 3, (k + 2) % 3
+            R = [[1.0 if a == b else 0.0 for b in range(3)] for a in range(3)]
+            R[i][i], R[i][j], R[j][i], R[j][j] = c, -s_, s_, c
+            M = [[sum(R[a][x] * M[r][x] for x in range(3)) for a in range(3)] for r in range(3)]
+        out = []
+        for r in range(3):
+            L = rng.choice([0.5, 1.0, 2.0, 3.0, 1.5, 4.0])
+            out += [L * x for x in M[r]]
+        for n_, x in zip(names, out):
+            self.symbols[n_] = x
+        return out
 
     def unit3(self, names):
         if isinstance(names, str):
@@ -444,11 +475,29 @@ def list_units(C):
     return [label for label, _ in C.cases(S)]
 
 
+def _source_of(C):
+    try:
+        if C.target is None:
+            return {'lemma': True}
+        fn = getattr(C.target, '__func__', C.target)
+        _, fname, l0, l1, sha = fn_source(fn)
+        return {'file': fname, 'lines': [l0, l1], 'sha256': sha}
+    except Exception as exc:
+        return {'error': str(exc)}
+
+
 def verify_unit(cname, case_label, tier, seed):
     """Runs in a worker process.  Returns a JSON-able dict."""
     C = REGISTRY[cname]
     budget = C.budget or (10 if tier == 'quick' else 60)
     t_start = time.time()
+    if C.status == 'S':
+        # bounded stand-in only: the contract is evaluated on the real function for sampled inputs
+        n = C.samples * (1 if tier == 'quick' else 10)
+        sm = sample_unit(cname, case_label, seed, n=n)
+        return {'contract': cname, 'case': case_label, 'props': C.props, 'obligations': [], 'paths': 0,
+                'feasible_paths': 0, 'status': 'sampled', 'notes': [], 'vacuity': None, 'sampled': sm,
+                'source': _source_of(C), 'wall_s': round(time.time() - t_start, 3)}
     res = {'contract': cname, 'case': case_label, 'props': C.props, 'obligations': [], 'paths': 0,
            'feasible_paths': 0, 'status': 'ok', 'notes': [], 'vacuity': None}
     try:
@@ -485,12 +534,13 @@ def verify_unit(cname, case_label, tier, seed):
             if C.call is not None:
                 return it.call_function(C.call, [], a) if inspect.isfunction(C.call) else C.call(**a)
             return it.call(C.target, [], a)
-        paths = explore(run) if C.target is not None else [(Path(), ('ret', None))]
+        paths = explore(run, parent=pre_path) if C.target is not None else [(Path(), ('ret', None))]
         res['paths'] = len(paths)
         for pi, (p, outcome) in enumerate(paths):
             if uses_calls:
                 allargs['calls'] = _Calls(p.calls)
                 CTX.path = pre_path = Path()
+                pre_path.parent = p
                 try:
                     pre_hyps = [_b(C.requires(**allargs) if C.requires else True)] + pre_path.extra
                 except _NoSuchCall:
@@ -513,6 +563,7 @@ def verify_unit(cname, case_label, tier, seed):
                                            's': 0, 'why': val, 'path': pi})
                 continue
             CTX.path = spec_path = Path()
+            spec_path.parent = p
             try:
                 if kind == 'raise':
                     declared = False
@@ -532,6 +583,8 @@ def verify_unit(cname, case_label, tier, seed):
                 CTX.path = None
             for label, cond, n_pc, n_extra in spec_path.obl:
                 obls.append(('spec-side:' + label, cond, hyps + spec_path.extra[:n_extra]))
+            for label, cond, n_pc, n_extra in pre_path.obl:
+                obls.append(('precondition-side:' + label, cond, pre_path.extra[:n_extra]))
             full_hyps = hyps + spec_path.extra
             full_hyps = full_hyps + [a for a in backend.axioms_for(full_hyps + [
                 _formula(g) for _, g, _ in obls if not isinstance(g, bool)]) if a not in full_hyps]
@@ -546,7 +599,8 @@ def verify_unit(cname, case_label, tier, seed):
                     # the obligations below cannot be discharged -- reported there, not as a checker defect
                     res['notes'].append(f'path {pi}: no state of this path satisfies the whole postcondition')
             for label, goal, h in obls:
-                o = discharge(label, goal, full_hyps if h is None else h, budget, tier)
+                o = discharge(label, goal, full_hyps if h is None else h, budget, tier,
+                              defs=list(p.defs) + list(spec_path.defs) + list(pre_path.defs))
                 o['path'] = pi
                 if os.environ.get('PYVC_VERBOSE'):
                     print(f'   path {pi} {label}: {o["verdict"]} {o.get("backend")} {o.get("s")}s', flush=True)
@@ -582,7 +636,7 @@ def verify_unit(cname, case_label, tier, seed):
     return res
 
 
-def discharge(label, goal, hyps, budget, tier):
+def discharge(label, goal, hyps, budget, tier, defs=None):
     t0 = time.time()
     out = {'label': label}
     if isinstance(goal, Ident):
@@ -594,7 +648,7 @@ def discharge(label, goal, hyps, budget, tier):
                            s=round(time.time() - t0, 4))
                 return out
             goal = Ident(Sym(goal.lhs), Sym(goal.rhs))
-        v, info = backend.ideal_check(hyps, goal.lhs, goal.rhs)
+        v, info = backend.ideal_check(hyps, goal.lhs, goal.rhs, defs=defs)
         if v == 'unsat':
             out.update(verdict='unsat', backend='ideal(sympy)', s=round(time.time() - t0, 4), info=_small(info))
             return out
@@ -623,23 +677,19 @@ def nice_models(hyps, goal, symbols, budget):
     """Counter-models whose input symbols are small integers / halves / quarters (exactly representable)."""
     f = _formula(goal)
     consts = [v.t for v in symbols.values() if is_sym(v) and z3.is_real(v.t)]
+    t_end = time.time() + min(3 * budget, 40)
     for denom, bound in ((1, 4), (2, 8), (4, 40), (None, None)):
-        s = z3.Solver()
-        s.set('timeout', int(min(budget, 4) * 1000))
-        for h in hyps:
-            s.add(h)
-        s.add(z3.Not(f))
+        if time.time() > t_end:
+            return
+        extra = []
         for i, c in enumerate(consts):
             if denom is None:
                 break
             k = z3.Int(f'nice!{i}')
-            s.add(c * denom == z3.ToReal(k), k >= -bound, k <= bound)
-        try:
-            r = s.check()
-        except z3.Z3Exception:
-            continue
-        if r == z3.sat:
-            yield s.model()
+            extra += [c * denom == z3.ToReal(k), k >= -bound, k <= bound]
+        v, model, _, _ = backend.z3_check(list(hyps) + extra, z3.Not(f), min(budget, 4))
+        if v == 'sat':
+            yield model
 
 
 def _small(info):
